@@ -165,3 +165,143 @@ Check any_field_alteration_rejected.
 Check published_head_verifies.
 Check rejected_head_no_effect.
 Check peer_id_never_empty_on_subscriber_path.
+
+(* ================================================================================== *)
+(* Composition with C01 (model/Compose_C03_C01.v, proofs/Compose_C03_C01.v).
+
+   C03's model leaves the chain sync after an accepted head abstract ([chain_sync]); C01's
+   model owns it but takes the queried head as a value of its call.  [signed_sync] is
+   SyncAdChain without explicit head with the head query decided by C03's [get_head] and the
+   rest done by C01's [C1.sync_ad_chain] (state {s_latest; s_store}; outputs hook log, request
+   log, event).  [num] numbers C03's structured CIDs into C01's opaque ones. *)
+From Model Require Import Compose_C03_C01.
+From Proofs Require Compose_C03_C01.
+Module PC := Proofs.Compose_C03_C01.
+
+Section ComposeC01.
+  Variables privkey pubkey sigt peerid : Type.
+  Variable pub : privkey -> pubkey.
+  Variable sign : privkey -> bytes -> sigt.
+  Variable verify : pubkey -> bytes -> sigt -> bool.
+  Variable peer_id : pubkey -> peerid.
+  Variable peerid_eqb : peerid -> peerid -> bool.
+  Variable num : Cid.cid -> C1.cid.
+
+  Hypothesis VS : VerifySign pub sign verify.
+  Hypothesis VU : VerifyUnique pub sign verify.
+  Hypothesis EQB : forall a b, peerid_eqb a b = true <-> a = b.
+
+  Notation get_head := (C3.get_head verify peer_id peerid_eqb).
+  Notation signed_sync := (signed_sync verify peer_id peerid_eqb num).
+  Notation run_signed := (run_signed verify peer_id peerid_eqb num).
+  Notation verified := (verified verify peer_id peerid_eqb).
+  Notation head := (C3.signed_head pubkey sigt).
+
+  (* SyncAdChain without explicit head, for every chain, every subscriber configuration and
+     every per-call option C01's theorem covers (stop CID, resync, scoped depth / segment size
+     / hook; strict selector, prescribed hook), every latest-sync and every store:
+     - if the response is a head for r signed, by the key embedded in it, over exactly
+       payload(r, topic), and that key is the key of the publisher asked for (<=> get_head
+       accepts: third conjunct, = head_accept_iff), the call is C01's SyncAdChain with queried
+       head r: hook log = the specified segment, requests = its missing blocks, latest-sync :=
+       r and SyncFinished(r, count) unless r is the stop point;
+     - otherwise: error, NO hook call, NO block request, no event, latest-sync and store as
+       they were (rejected_head_no_effect against C01's state and request log). *)
+  Theorem signed_head_sync_meets_c01_spec :
+    forall extra ch pubs cfg opts (ai : C3.addr_info peerid) (resp : option head) st id,
+      C1.chain_wf C1.EPrev extra ch = true -> C1.c_strict cfg = true ->
+      C1.resolve_hook cfg (C1.a_hook opts) = C1.HNominate ->
+      C3.remove_id ai = Ok id ->
+      let w := C1.chain_world C1.EPrev extra ch pubs in
+      (forall r sh k,
+         resp = Some sh -> C3.sh_cid sh = r -> C3.sh_key sh = C3.KKey (pub k) ->
+         C3.sh_sig sh = C3.SBytes (sign k (C3.payload r (C3.sh_topic sh))) -> peer_id (pub k) = id ->
+         In (num r) ch ->
+         let stop := C1.stop_table (C1.eff_latest cfg st) (C1.a_stop opts) (C1.a_resync opts) in
+         let lim := C1.depth_table (C1.c_ads_depth cfg) (C1.c_first_depth cfg) (C1.a_depth opts) stop in
+         let seg := C1.segment ch (num r) stop lim in
+         C1.avail pubs (C1.s_store st) seg = true ->
+         signed_sync w cfg opts ai resp st =
+         let moved := negb (C1.is_stop stop (num r)) in
+         C1.CO (C1.ROk (num r)) seg (C1.missing (C1.s_store st) seg)
+               (if moved then Some (num r, length seg) else None)
+               (C1.ST (if moved then Some (num r) else C1.s_latest st)
+                      (rev (C1.missing (C1.s_store st) seg) ++ C1.s_store st))) /\
+      (is_ok (get_head (Some id) resp) = false ->
+       signed_sync w cfg opts ai resp st = C1.CO C1.RErr [] [] None st) /\
+      (is_ok (get_head (Some id) resp) = true <->
+       exists r sh k, resp = Some sh /\ C3.sh_cid sh = r /\ C3.sh_key sh = C3.KKey (pub k) /\
+                      C3.sh_sig sh = C3.SBytes (sign k (C3.payload r (C3.sh_topic sh))) /\ peer_id (pub k) = id).
+  Proof. apply PC.signed_head_sync_meets_c01_spec_proved; assumption. Qed.
+
+  (* Over ANY history of such calls on one Subscriber, honest and forged responses mixed, any
+     options:
+     (a) latest-sync is its initial value or the CID of a head that VERIFIED -- signed, by the
+         key embedded in the response, over exactly its CID and topic, that key being the key
+         of the publisher the call asked for (third conjunct); no premise on worlds or
+         configurations;
+     (b) on a chain the publisher serves, with the prescribed hook, every call was either
+         rejected (no hook call, no request, no event) or reports exactly a segment of the
+         chain rooted at a verified head, each block once, newest first, and requests only
+         blocks it reports (C01's reported_once_newest_first / requests_are_exactly_missing). *)
+  Theorem forged_head_cannot_move_latest :
+    (forall w cfg l st,
+       C1.s_latest (snd (run_signed w cfg l st)) = C1.s_latest st \/
+       exists c r, In c l /\ verified c r /\ C1.s_latest (snd (run_signed w cfg l st)) = Some (num r)) /\
+    (forall extra ch pubs cfg,
+       C1.chain_wf C1.EPrev extra ch = true -> C1.c_strict cfg = true ->
+       (forall x, In x ch -> C1.memb x pubs = true) ->
+       forall l st,
+         (forall c, In c l -> C1.resolve_hook cfg (C1.a_hook (snd c)) = C1.HNominate) ->
+         (forall c r, In c l -> verified c r -> In (num r) ch) ->
+         forall c o, In (c, o) (fst (run_signed (C1.chain_world C1.EPrev extra ch pubs) cfg l st)) ->
+           (o = rejected (C1.r_state o) /\ forall r, ~ verified c r) \/
+           (exists r stop lim, verified c r /\ C1.r_ret o = C1.ROk (num r) /\
+              C1.r_hooks o = C1.segment ch (num r) stop lim /\ NoDup (C1.r_hooks o) /\
+              (exists post, C1.from (num r) ch = C1.r_hooks o ++ post) /\
+              (forall x, In x (C1.r_reqs o) -> In x (C1.r_hooks o)))) /\
+    (forall (ai : C3.addr_info peerid) (resp : option head) opts r,
+       verified (ai, resp, opts) r <->
+       exists id sh k, C3.remove_id ai = Ok id /\ resp = Some sh /\ C3.sh_cid sh = r /\
+                       C3.sh_key sh = C3.KKey (pub k) /\
+                       C3.sh_sig sh = C3.SBytes (sign k (C3.payload r (C3.sh_topic sh))) /\ peer_id (pub k) = id).
+  Proof.
+    split; [|split].
+    - intros w cfg. apply PC.latest_only_verified_heads_proved.
+    - intros extra ch pubs cfg H1 H2 H3. apply PC.hook_logs_only_verified_segments_proved; assumption.
+    - intros. apply (PC.verified_iff_proved _ _ _ _ pub sign verify peer_id peerid_eqb VS VU EQB).
+  Qed.
+
+  (* The bridge between the two state types.  C03's {st_latest; st_reqs} and C01's
+     {s_latest; s_store} + request log are related by
+       latest_rel : option_map num (st_latest) = C1.eff_latest cfg (what GetLatestSync answers),
+     the numbering is injective, and C03's abstract [chain_sync] is C01's sync seen through the
+     numbering (block list numbers to C01's request log, success flag = C01's return).  Then for
+     the plain call C03's model is a projection of the composed one: same verdict, related
+     latest-sync afterwards, block requests that number to C01's request log, one head
+     request iff a peer ID resolves. *)
+  Theorem c03_model_is_projection_of_composed :
+    (forall a b, num a = num b -> a = b) ->
+    forall w cfg (ai : C3.addr_info peerid) (resp : option head) (st3 : C3.sub_state) (st1 : C1.substate)
+           (chain_sync : Cid.cid -> option Cid.cid -> list Cid.cid * bool),
+      latest_rel num cfg st3 st1 ->
+      (forall id c, C3.remove_id ai = Ok id -> get_head (Some id) resp = Ok c ->
+         C1.is_stop (C1.eff_latest cfg st1) (num c) = false ->
+         let o1 := C1.sync_ad_chain w cfg (query_call plain_opts (Some (num c))) st1 in
+         map num (fst (chain_sync c (C3.st_latest st3))) = C1.r_reqs o1 /\
+         snd (chain_sync c (C3.st_latest st3)) = ret_is_ok (C1.r_ret o1)) ->
+      let o := signed_sync w cfg plain_opts ai resp st1 in
+      let r3 := fst (C3.sync_ad_chain verify peer_id peerid_eqb chain_sync ai resp st3) in
+      let st3' := snd (C3.sync_ad_chain verify peer_id peerid_eqb chain_sync ai resp st3) in
+      ret_rel num r3 (C1.r_ret o) /\
+      latest_rel num cfg st3' (C1.r_state o) /\
+      map num (C3.blocks_of (C3.st_reqs st3')) = map num (C3.blocks_of (C3.st_reqs st3)) ++ C1.r_reqs o /\
+      C3.count_heads (C3.st_reqs st3') = (C3.count_heads (C3.st_reqs st3) + head_requests ai)%N.
+  Proof. intro Hinj. apply PC.c03_model_is_projection_proved; assumption. Qed.
+End ComposeC01.
+
+Print Assumptions signed_head_sync_meets_c01_spec.
+Print Assumptions forged_head_cannot_move_latest.
+Print Assumptions c03_model_is_projection_of_composed.
+Check signed_head_sync_meets_c01_spec.
+Check forged_head_cannot_move_latest.
